@@ -8,3 +8,11 @@ CHECKS = {
          "Trusted: pdpmc/ref/rad50.py (checked against known-answer vectors by setup_cmd); statements are batched 500 per program, any deviation is bisected to the single statement.",
          "DESIGN.md 5/C15"),
 }
+CHECKS["C14"] = ("exploration", "exhaustive enumeration of all bytes and all Unicode code points on the real codec and assembler",
+   "Complete enumeration (exhaustive: true): all 256 byte values, all 1,114,112 code points through the codec, every encodable/unencodable pattern up to length 4, and at assembly level every table character through .ascii/.asciz/'c/\"cc and every BMP code point outside the table (must fail with an error). The quantifier's space is finite and covered completely.",
+   "Trusted: Python's koi8_r codec as the KOI8-R source, chr() as ASCII; the pseudo-graphics block is only checked for bijectivity, as the property states.",
+   "DESIGN.md 5/C14")
+CHECKS["C01"] = ("exploration", "exhaustive enumeration of mnemonic x operand-form products on the real assembler, decoded by an independent PDP-11 decoder",
+   "Every one of the 252 mnemonics with the complete operand-form product of its class (quick: 12x12 syntactic forms x 8 register pairings x 2 values for double-operand instructions, everything else complete; thorough: full 108x108 form product at three link bases) is assembled and the emitted words are decoded by an independent decoder: same operation, modes, registers, operand order, operand values, exact length. A finite product covered completely is the strongest statement available for a 252-row table.",
+   "Trusted: pdpmc/ref/isa.py (table written from the handbooks, DESIGN.md Appendix A; handbook vectors in selftest). Statements are batched ~400 per program; any deviation re-runs each statement alone.",
+   "DESIGN.md 5/C01")
